@@ -85,7 +85,7 @@ theorem simS_step (n : Nat) (hC : SimC n) : SimS (n+1) := by
       obtain ⟨fl, e1, he, hp⟩ := Rel_some h0
       rw [he]
       rcases hp with hp | hp
-      · have := wrap_nonneg (k := k) (run_pos hr) (s := s) (s0 := { s with exit := {} }) ⟨rfl, rfl, rfl⟩ hp
+      · have := wrap_nonneg (k := k) (e0 := absEnv s) (run_pos hr) (s := s) (s0 := { s with exit := {} }) ⟨rfl, rfl, rfl⟩ hp
         exact Rel_mono (fun _ _ _ h => h.mono_q (by simp [tailOkS])) this
       · exact wrap_pending (run_pos hr) hp
   | true =>
